@@ -19,16 +19,19 @@ META = {
             "threads in strict hand-off, thread exit = join, forked process per history) replay the same histories and "
             "must print the same instance ids, slot indexes, read values and visited lists; monitors check the "
             "property text directly against harness-side totals, plus a concurrent reader-bounds stress run.",
-    "note": "Refuted on the model and reproduced on the real code (KNOWN_FINDINGS): non-const "
-            "EnumerableThreadLocal::for_each_alive (the overload CompactEnumerableThreadLocal always reaches) reads out "
-            "of bounds when a live thread id >= this storage's size; a maxer/miner whose only sample equals "
-            "numeric_limits min/max reports an empty period.  Not proved, monitors only: exactness of const "
-            "for_each_alive (in-bounds is proved), maxer/miner extreme for non-sentinel samples, reader bounds under "
-            "real concurrency (stress monitor, non-deterministic; an interleaving model CTModel.rstep is provided).  "
-            "Assumption threads_small: < 65408 thread ids ever allocated (for_each casts size() to uint16_t: 65536 "
-            "lines wrap to 0; not replayed).  Trusted: Coq kernel, translator (regex/cond targets), ExtrOcamlBasic "
-            "extraction + ocaml/ct_driver.ml, harness/seq/c19_counter.cpp (-fno-access-control to read ids), ghost "
-            "fields g_sum/g_cnt/g_per/g_used of the model as the meaning of 'everything added'.",
+    "note": "Also proved: maxer/miner value() = extreme of the current period for every sample value (sentinels "
+            "included), both for_each_alive overloads stay in bounds and visit exactly the lines of live threads the "
+            "storage has room for, reader bounds for every schedule of an interleaving machine (on the real classes: "
+            "concurrent stress monitor, non-deterministic).  Two earlier refutations (non-const for_each_alive out of "
+            "bounds; sentinel sample reported as empty period) were reproduced on the real code and fixed in /repo "
+            "(31db6ff, 37f7c2a); the clamps and the `!has_result ||` disjunct are regenerated targets, so reverting a "
+            "fix re-opens a proof, and the former witnesses are fixed histories of every run.  Assumptions: "
+            "threads_small (< 65408 thread ids ever allocated; for_each casts size() to uint16_t: 65536 lines wrap to "
+            "0; not replayed), histories shorter than SIZE_MAX operations (period version vs Slot sentinel).  Trusted: "
+            "Coq kernel, translator (regex/cond targets; `_comparer(a,b)` printed as a-b inside read_accept and fed "
+            "(outcome,0)), ExtrOcamlBasic extraction + ocaml/ct_driver.ml, harness/seq/c19_counter.cpp "
+            "(-fno-access-control to read ids), ghost fields g_sum/g_cnt/g_per/g_used of the model as the meaning of "
+            "'everything added'.",
 }
 
 
@@ -133,7 +136,7 @@ def targeted(kind):
     """deterministic boundary histories (the windows the property names)"""
     out = []
     if kind in ("C",):
-        # refutation witness of c19_for_each_alive_refuted: 17th instance lives in an untouched second storage
+        # former out-of-bounds witness (fixed 31db6ff): 17th instance lives in an untouched second storage
         out.append(["sp0"] + ["n%d@0" % i for i in range(17)] + ["a0,5@0", "fc16@0", "fe16@0", "fa16@0", "r16@0", "a16,3@0", "fa16@0", "r16@0"])
         # a full cache line of instances, destroyed and recreated in another order: every offset recycled
         h = ["sp0", "sp1"] + ["n%d@0" % i for i in range(16)]
@@ -154,7 +157,7 @@ def targeted(kind):
         out.append(h)
     if kind in ("X", "N"):
         ext = INT64_MIN if kind == "X" else INT64_MAX
-        out.append(["sp0", "n0@0", "a0,%d@0" % ext, "r0@0"])                       # witness of c19_extreme_refuted
+        out.append(["sp0", "n0@0", "a0,%d@0" % ext, "r0@0"])                       # former sentinel witness (fixed 37f7c2a)
         out.append(["sp0", "sp1", "n0@0", "r0@0", "a0,5@0", "a0,-7@1", "r0@0", "z0@0", "r0@1", "a0,-9@1", "r0@0", "ex1", "r0@0",
                     "sp2", "a0,-20@2", "r0@2", "z0@2", "a0,-3@2", "r0@0", "d0@0", "n1@2", "r1@2", "a1,2@2", "r1@0"])
     if kind == "E":
@@ -165,12 +168,6 @@ def targeted(kind):
 
 
 def sig_of(kind, mon, info):
-    if mon == "oob":
-        return "alive-nonconst-oob" if info.startswith("non-const") else "alive-const-oob"
-    if mon == "exact" and kind in ("X", "N"):
-        ext = INT64_MIN if kind == "X" else INT64_MAX
-        if info.startswith("read 0,0 want %d" % ext):
-            return "extremum-sentinel"
     return "mon-" + mon
 
 
@@ -295,7 +292,7 @@ def main(argv):
                        "construct/destroy/move-assign/move-construct (handles re-used so ids and addresses recycle), add "
                        "(boundary values incl. INT64_MIN/MAX for maxer/miner), read, reset, for_each, for_each_alive (both "
                        "overloads), steered at many instances (second storage), many threads, and enumeration; plus fixed "
-                       "boundary histories: the two refutation witnesses, 140 live threads (second vector block) with exit "
+                       "boundary histories: the two former refutation witnesses, 140 live threads (second vector block) with exit "
                        "and re-spawn, a full cache line of instances recycled, address reuse of a destroyed "
                        "EnumerableThreadLocal.  distinct non-trivial = histories in which an instance id was handed out "
                        "twice AND a slot index was used by two different threads (measured from the implementation's "
